@@ -89,21 +89,34 @@ func vfC10Observe(s vfSnap) {
 	}
 }
 
-// H_C10_shuffleseqs_invariant: ShuffleSequences is a row permutation.
-// bounds: rows n<=4, columns L<=2, residues any printable ASCII byte, names distinct; every outcome of the draws
-// outside: n>4, L>2 (rows are moved as a whole, so L is irrelevant to the code), duplicate names (cannot be built through the API)
-func H_C10_shuffleseqs_invariant() {
-	n := nondetRange(1, 4)
-	L := nondetRange(1, 2)
+// vfC10Concrete builds an n x L alignment with concrete, pairwise distinct residues per row:
+// row 0 = "ABCD"[:L], row 1 = "abcd"[:L], row 2 = "0123"[:L], so that the origin (row and column) of
+// every residue of a result can be read off the result.
+func vfC10Concrete(n, L int) *align {
+	al := NewAlign(AMINOACIDS)
+	base := []uint8{'A', 'a', '0', 'k'}
+	for i := 0; i < n; i++ {
+		s := make([]uint8, L)
+		for j := range s {
+			s[j] = base[i] + uint8(j)
+		}
+		if err := al.AddSequenceChar(vfNames[i], s, ""); err != nil {
+			panic("harness: cannot build alignment: " + err.Error())
+		}
+	}
+	return al
+}
+
+// ------------------------------------------------------------------ ShuffleSequences
+
+func vfC10ShuffleSeqs(n, L int) (moved bool, after vfSnap) {
 	al, orig := vfSymAlign(AMINOACIDS, n, L, vfC10Res)
 	al.ShuffleSequences()
-	verifReach("shuffled")
-	after := vfSnapshot(al)
+	after = vfSnapshot(al)
 	vfC10Observe(after)
 	verifAssert(len(after.names) == n, "row count kept")
 	verifAssert(al.Length() == L, "alignment length kept")
 	seen := make([]bool, n)
-	moved := false
 	for i := 0; i < n; i++ {
 		k := vfC10NameIndex(after.names[i], n)
 		verifAssert(k >= 0, "every row carries an original name")
@@ -116,6 +129,17 @@ func H_C10_shuffleseqs_invariant() {
 			moved = true
 		}
 	}
+	return
+}
+
+// H_C10_shuffleseqs_invariant: ShuffleSequences is a row permutation (same multiset of (name, sequence) rows).
+// bounds: rows n<=4, columns L<=2, residues any printable ASCII byte, names distinct; every outcome of the draws
+// outside: n>4, L>2 (rows are moved as a whole), duplicate names (cannot be built through the API)
+func H_C10_shuffleseqs_invariant() {
+	n := nondetRange(1, 4)
+	L := nondetRange(1, 2)
+	moved, after := vfC10ShuffleSeqs(n, L)
+	verifReach("shuffled")
 	if moved {
 		verifReach("order-changed")
 	} else {
@@ -126,41 +150,271 @@ func H_C10_shuffleseqs_invariant() {
 	}
 }
 
-// H_C10_shufflesites_invariant: ShuffleSites permutes characters within columns only; names are fixed.
-// bounds: rows n<=3, columns L<=3, residues any printable ASCII byte, rate and roguerate = k/8 for k in 0..8 (borders 0 and 1 included), both values of randroguefirst; every outcome of the draws
-// outside: n>3, L>3, rates outside [0,1] (the documented reaction is a process exit), rates that are not multiples of 1/8
-//verif: merge=0
-func H_C10_shufflesites_invariant() {
-	n := nondetRange(1, 3)
-	L := nondetRange(1, 3)
+// H_C10_shuffleseqs_support: every one of the 3! row orders of a 3-row alignment can be produced.
+// bounds: n=3, L=1, concrete residues; reachability of each order over all outcomes of the draws
+// outside: n>3 (4! orders are covered by the invariant only)
+func H_C10_shuffleseqs_support() {
+	al := vfC10Concrete(3, 1)
+	al.ShuffleSequences()
+	a, _ := al.GetSequenceNameById(0)
+	b, _ := al.GetSequenceNameById(1)
+	c, _ := al.GetSequenceNameById(2)
+	o := a + b + c
+	if o == "s0s1s2" {
+		verifReach("order 0 1 2")
+	}
+	if o == "s0s2s1" {
+		verifReach("order 0 2 1")
+	}
+	if o == "s1s0s2" {
+		verifReach("order 1 0 2")
+	}
+	if o == "s1s2s0" {
+		verifReach("order 1 2 0")
+	}
+	if o == "s2s0s1" {
+		verifReach("order 2 0 1")
+	}
+	if o == "s2s1s0" {
+		verifReach("order 2 1 0")
+	}
+}
+
+// ------------------------------------------------------------------ ShuffleSites
+
+func vfC10ShuffleSites(n, L int) {
 	al, orig := vfSymAlign(AMINOACIDS, n, L, vfC10Res)
 	rate := nondetDyadic(8, 0, 8)
 	roguerate := nondetDyadic(8, 0, 8)
 	first := nondetBool()
 	al.ShuffleSites(rate, roguerate, first)
-	verifReach("shuffled")
 	after := vfC10Shape(al, n, L)
 	vfC10Observe(after)
-	changed := false
+	same := true
 	for j := 0; j < L; j++ {
 		verifAssert(vfC10SameMultiset(vfC10Column(orig, j), vfC10Column(after.seqs, j)), "every column keeps its multiset of characters")
 		for i := 0; i < n; i++ {
-			if after.seqs[i][j] != orig[i][j] {
-				changed = true
-			}
+			same = same && after.seqs[i][j] == orig[i][j]
 		}
 	}
-	if rate == 0 {
-		verifReach("rate=0")
-		verifAssert(!changed, "rate 0 shuffles nothing")
+	verifAssert(rate != 0 || same, "rate 0 shuffles nothing")
+}
+
+// H_C10_shufflesites_invariant: ShuffleSites permutes characters within columns only; names are fixed.
+// bounds: shapes (n,L) with n<=3, L<=2 and (2,4) [the smallest L in which the extra shuffling of rogue rows happens: rate 1/2], residues any printable ASCII byte, rate and roguerate = k/8 for k in 0..8 (borders 0 and 1 included), both values of randroguefirst; every outcome of the draws
+// outside: n>3, L=3, L>4, rates outside [0,1] (the documented reaction is a process exit), rates that are not multiples of 1/8
+func H_C10_shufflesites_invariant() {
+	n := nondetRange(1, 3)
+	L := nondetRange(1, 2)
+	if nondetRange(0, 1) == 1 {
+		assume(n == 2 && L == 2)
+		L = 4
+		verifReach("n=2 L=4")
 	}
-	if rate == 1 {
-		verifReach("rate=1")
-	}
-	if changed {
-		verifReach("some column permuted")
+	vfC10ShuffleSites(n, L)
+	verifReach("shuffled")
+}
+
+// H_C10_shufflesites_invariant_deep: as H_C10_shufflesites_invariant on all shapes n<=3, L<=4.
+// bounds: rows n<=3, columns L in 3..4, residues any printable ASCII byte, rate and roguerate = k/8 for k in 0..8, both values of randroguefirst; every outcome of the draws
+// outside: n>3, L>4, rates outside [0,1], rates that are not multiples of 1/8
+//verif: tier=thorough
+func H_C10_shufflesites_invariant_deep() {
+	n := nondetRange(1, 3)
+	L := nondetRange(3, 4)
+	vfC10ShuffleSites(n, L)
+	verifReach("shuffled")
+}
+
+// H_C10_shufflesites_support: each site can be the shuffled one, each of the n! arrangements of a column can be produced, and the extra rogue shuffle can hit each remaining site.
+// bounds: concrete residues; (a) n=2, L in {2,4}, rate 1/L (one site shuffled): each site; (b) n=3, L=1, rate 1: each of the 6 arrangements; (c) n=2, L=4, rate 1/2, roguerate 1: 3 columns exchanged
+// outside: other shapes and rates (probabilities are not claimed, only that the outcome is possible)
+func H_C10_shufflesites_support() {
+	switch nondetRange(0, 3) {
+	case 0:
+		al := vfC10Concrete(2, 2)
+		al.ShuffleSites(0.5, 0, false)
+		r, _ := al.GetSequenceCharById(0)
+		if r[0] == 'a' && r[1] == 'B' {
+			verifReach("L=2 site 0 shuffled")
+		}
+		if r[0] == 'A' && r[1] == 'b' {
+			verifReach("L=2 site 1 shuffled")
+		}
+		if r[0] == 'A' && r[1] == 'B' {
+			verifReach("L=2 identity arrangement")
+		}
+		verifAssert(!(r[0] == 'a' && r[1] == 'b'), "rate 1/2 of 2 sites shuffles one site only")
+	case 1:
+		al := vfC10Concrete(2, 4)
+		al.ShuffleSites(0.25, 0, true)
+		r, _ := al.GetSequenceCharById(0)
+		if r[0] == 'a' {
+			verifReach("L=4 site 0 shuffled")
+		}
+		if r[1] == 'b' {
+			verifReach("L=4 site 1 shuffled")
+		}
+		if r[2] == 'c' {
+			verifReach("L=4 site 2 shuffled")
+		}
+		if r[3] == 'd' {
+			verifReach("L=4 site 3 shuffled")
+		}
+	case 2:
+		al := vfC10Concrete(3, 1)
+		al.ShuffleSites(1, 0, false)
+		a, _ := al.GetSequenceCharById(0)
+		b, _ := al.GetSequenceCharById(1)
+		c, _ := al.GetSequenceCharById(2)
+		o := string([]byte{a[0], b[0], c[0]})
+		if o == "Aa0" {
+			verifReach("column A a 0")
+		}
+		if o == "A0a" {
+			verifReach("column A 0 a")
+		}
+		if o == "aA0" {
+			verifReach("column a A 0")
+		}
+		if o == "a0A" {
+			verifReach("column a 0 A")
+		}
+		if o == "0Aa" {
+			verifReach("column 0 A a")
+		}
+		if o == "0aA" {
+			verifReach("column 0 a A")
+		}
+	case 3:
+		al := vfC10Concrete(2, 4)
+		rogues := al.ShuffleSites(0.5, 1, false)
+		r, _ := al.GetSequenceCharById(0)
+		cnt := 0
+		for j := 0; j < 4; j++ {
+			if r[j] >= 'a' {
+				cnt++
+			}
+		}
+		verifAssert(cnt <= 3, "rate 1/2 of 4 sites: 2 sites plus 1 rogue site at most")
+		verifAssert(len(rogues) == 2, "rogue list has roguerate*n entries")
+		if cnt == 3 {
+			verifReach("rogue shuffle changed a third site")
+		}
+		if cnt == 3 && r[3] == 'd' {
+			verifReach("last site among the three")
+		}
 	}
 }
+
+// ------------------------------------------------------------------ Swap
+
+func vfC10Swap(n, L int) (swapped bool) {
+	al, orig := vfSymAlign(AMINOACIDS, n, L, vfC10Res)
+	rate := nondetDyadic(8, -1, 9)
+	pos := nondetDyadic(8, -1, 9)
+	err := al.Swap(rate, pos)
+	after := vfC10Shape(al, n, L)
+	vfC10Observe(after)
+	same := true
+	for j := 0; j < L; j++ {
+		verifAssert(vfC10SameMultiset(vfC10Column(orig, j), vfC10Column(after.seqs, j)), "every column keeps its multiset of characters")
+		for i := 0; i < n; i++ {
+			same = same && after.seqs[i][j] == orig[i][j]
+		}
+	}
+	if rate < 0 || rate > 1 {
+		verifAssert(err != nil, "rate outside [0,1] is an error")
+		verifAssert(same, "nothing is swapped after an error")
+		return false
+	}
+	verifAssert(err == nil, "rate inside [0,1] is accepted")
+	return !same
+}
+
+// H_C10_swap_invariant: Swap preserves every column's character multiset; names are fixed.
+// bounds: rows n<=4 (n=4 is the smallest n with two swapped pairs), columns L<=3, residues any printable ASCII byte, rate and pos = k/8 for k in -1..9 (pos outside [0,1] = random position); every outcome of the draws
+// outside: n>4, L>3, rate/pos that are not multiples of 1/8
+func H_C10_swap_invariant() {
+	n := nondetRange(1, 4)
+	L := nondetRange(1, 3)
+	if vfC10Swap(n, L) {
+		verifReach("something swapped")
+	} else {
+		verifReach("nothing swapped")
+	}
+}
+
+// ------------------------------------------------------------------ SimulateRogue
+
+func vfC10Rogue(n, L int) (nrogue int, changed bool) {
+	al, orig := vfSymAlign(AMINOACIDS, n, L, vfC10Res)
+	prop := nondetDyadic(8, 0, 8)
+	proplen := nondetDyadic(8, 0, 8)
+	rogue, intact := al.SimulateRogue(prop, proplen)
+	after := vfC10Shape(al, n, L)
+	vfC10Observe(after)
+	verifAssert(len(rogue)+len(intact) == n, "rogue and intact names together are as many as the rows")
+	isRogue := make([]bool, n)
+	seen := make([]bool, n)
+	for _, name := range rogue {
+		k := vfC10NameIndex(name, n)
+		verifAssert(k >= 0, "a rogue name is a row name")
+		verifAssert(!seen[k], "no name is reported twice")
+		seen[k] = true
+		isRogue[k] = true
+	}
+	for _, name := range intact {
+		k := vfC10NameIndex(name, n)
+		verifAssert(k >= 0, "an intact name is a row name")
+		verifAssert(!seen[k], "no name is reported twice")
+		seen[k] = true
+	}
+	same := true
+	for i := 0; i < n; i++ {
+		if isRogue[i] {
+			verifAssert(vfC10SameMultiset(orig[i], after.seqs[i]), "a rogue row is a permutation of its own residues")
+			same = same && vfC10SameRow(orig[i], after.seqs[i])
+		} else {
+			verifAssert(vfC10SameRow(orig[i], after.seqs[i]), "rows that are not chosen are untouched")
+		}
+	}
+	return len(rogue), !same
+}
+
+// H_C10_rogue_invariant: SimulateRogue permutes residues within the chosen rows only; rogue and intact names partition the rows.
+// bounds: rows n<=3, columns L<=3, residues any printable ASCII byte, prop and proplen = k/8 for k in 0..8 (borders included); every outcome of the draws
+// outside: n>3, L>3, proportions outside [0,1] (nil,nil is returned), proportions that are not multiples of 1/8
+func H_C10_rogue_invariant() {
+	n := nondetRange(1, 3)
+	L := nondetRange(1, 3)
+	nr, changed := vfC10Rogue(n, L)
+	verifReach("simulated")
+	if nr == 0 {
+		verifReach("no rogue")
+	}
+	if nr == n {
+		verifReach("all rows rogue")
+	}
+	if nr > 0 && nr < n {
+		verifReach("some rows rogue")
+	}
+	if changed {
+		verifReach("a rogue row changed")
+	}
+}
+
+// H_C10_rogue_invariant_deep: as H_C10_rogue_invariant with L=4.
+// bounds: rows n<=3, columns L=4, residues any printable ASCII byte, prop and proplen = k/8 for k in 0..8; every outcome of the draws
+// outside: n>3, L>4
+//verif: tier=thorough
+func H_C10_rogue_invariant_deep() {
+	n := nondetRange(1, 3)
+	vfC10Rogue(n, 4)
+	verifReach("simulated")
+}
+
+// ------------------------------------------------------------------ BuildBootstrap
 
 // H_C10_bootstrap_invariant: every bootstrap column is an original column taken for all rows at once; the length is floor(frac*L).
 // bounds: rows n<=3, columns L<=4, residues any printable ASCII byte, frac = k/8 for k in -1..9 (frac<=0 and frac>1 mean 1, as documented); every outcome of the draws
@@ -179,10 +433,11 @@ func H_C10_bootstrap_invariant() {
 	}
 	out := vfSnapshot(boot)
 	vfC10Observe(out)
-	m := boot.Length()
+	m := len(out.seqs[0])
 	verifAssert(len(out.names) == n, "one bootstrap row per original row")
 	x := eff * float64(L)
 	verifAssert(float64(m) <= x && x < float64(m+1), "bootstrap length is floor(frac*L)")
+	verifAssert(m == 0 || boot.Length() == m, "Length() reports the bootstrap length")
 	if m < L {
 		verifReach("partial bootstrap")
 	}
@@ -201,8 +456,575 @@ func H_C10_bootstrap_invariant() {
 		}
 		verifAssert(found, "bootstrap column is one original column taken for all rows")
 	}
-	after := vfSnapshot(al)
+}
+
+// H_C10_bootstrap_support: every site (the last one included) can be drawn by the bootstrap, at the first and at the last position of the result.
+// bounds: n=2, L<=4, concrete distinct columns, frac=1; reachability over all outcomes of the draws
+// outside: L>4; probabilities other than non-zero
+func H_C10_bootstrap_support() {
+	L := nondetRange(1, 4)
+	al := vfC10Concrete(2, L)
+	boot := al.BuildBootstrap(1)
+	r, _ := boot.GetSequenceCharById(0)
+	verifAssert(len(r) == L, "full bootstrap has L columns")
+	f, l := int(r[0]-'A'), int(r[L-1]-'A')
+	switch L*10 + f {
+	case 10:
+		verifReach("L=1 site 0 first")
+	case 20:
+		verifReach("L=2 site 0 first")
+	case 21:
+		verifReach("L=2 site 1 first")
+	case 30:
+		verifReach("L=3 site 0 first")
+	case 31:
+		verifReach("L=3 site 1 first")
+	case 32:
+		verifReach("L=3 site 2 first")
+	case 40:
+		verifReach("L=4 site 0 first")
+	case 41:
+		verifReach("L=4 site 1 first")
+	case 42:
+		verifReach("L=4 site 2 first")
+	case 43:
+		verifReach("L=4 site 3 first")
+	}
+	switch L*10 + l {
+	case 20:
+		verifReach("L=2 site 0 last")
+	case 21:
+		verifReach("L=2 site 1 last")
+	case 30:
+		verifReach("L=3 site 0 last")
+	case 31:
+		verifReach("L=3 site 1 last")
+	case 32:
+		verifReach("L=3 site 2 last")
+	case 40:
+		verifReach("L=4 site 0 last")
+	case 41:
+		verifReach("L=4 site 1 last")
+	case 42:
+		verifReach("L=4 site 2 last")
+	case 43:
+		verifReach("L=4 site 3 last")
+	}
+	if L == 4 && r[0] == 'D' && r[1] == 'D' && r[2] == 'D' && r[3] == 'D' {
+		verifReach("L=4 last site drawn four times (with replacement)")
+	}
+}
+
+// ------------------------------------------------------------------ Sample
+
+// H_C10_sample_invariant: Sample(nb) draws nb distinct original rows; nb<1 or nb>n is an error.
+// bounds: rows n<=3, columns L<=2, residues any printable ASCII byte, nb any 64-bit integer; every outcome of the draws
+// outside: n>3, L>2 (rows are taken as a whole)
+func H_C10_sample_invariant() {
+	n := nondetRange(1, 3)
+	L := nondetRange(1, 2)
+	al, orig := vfSymAlign(AMINOACIDS, n, L, vfC10Res)
+	nb := nondetInt()
+	sub, err := al.Sample(nb)
+	verifReach("called")
+	if nb < 1 || nb > n {
+		verifReach("rejected")
+		verifAssert(err != nil, "nb<1 or nb>n is an error")
+		return
+	}
+	verifAssert(err == nil, "1<=nb<=n is accepted")
+	out := vfSnapshot(sub)
+	vfC10Observe(out)
+	verifAssert(len(out.names) == nb, "nb rows are drawn")
+	verifAssert(sub.Length() == L, "alignment length kept")
+	seen := make([]bool, n)
+	for i := 0; i < nb; i++ {
+		k := vfC10NameIndex(out.names[i], n)
+		verifAssert(k >= 0, "a sampled row carries an original name")
+		verifAssert(!seen[k], "no row is drawn twice")
+		seen[k] = true
+		verifAssert(vfC10SameRow(out.seqs[i], orig[k]), "a sampled row is the original row of that name")
+	}
+	if nb == n {
+		verifReach("all rows")
+	}
+	if nb < n {
+		verifReach("proper subset")
+	}
+}
+
+// H_C10_sample_support: every row (the last one included) can be the one drawn by Sample(1), and can be the one left out by Sample(n-1).
+// bounds: n in 2..3, L=1, concrete residues; reachability over all outcomes of the draws
+// outside: n>3
+func H_C10_sample_support() {
+	n := nondetRange(2, 3)
+	al := vfC10Concrete(n, 1)
+	if nondetRange(0, 1) == 0 {
+		sub, err := al.Sample(1)
+		verifAssert(err == nil && sub.NbSequences() == 1, "one row drawn")
+		name, _ := sub.GetSequenceNameById(0)
+		switch n*10 + vfC10NameIndex(name, n) {
+		case 20:
+			verifReach("n=2 row 0 drawn")
+		case 21:
+			verifReach("n=2 row 1 drawn")
+		case 30:
+			verifReach("n=3 row 0 drawn")
+		case 31:
+			verifReach("n=3 row 1 drawn")
+		case 32:
+			verifReach("n=3 row 2 drawn")
+		}
+	} else {
+		sub, err := al.Sample(n - 1)
+		verifAssert(err == nil && sub.NbSequences() == n-1, "n-1 rows drawn")
+		missing := -1
+		for k := 0; k < n; k++ {
+			if _, ok := sub.GetSequenceChar(vfNames[k]); !ok {
+				missing = k
+			}
+		}
+		switch n*10 + missing {
+		case 20:
+			verifReach("n=2 row 0 left out")
+		case 21:
+			verifReach("n=2 row 1 left out")
+		case 30:
+			verifReach("n=3 row 0 left out")
+		case 31:
+			verifReach("n=3 row 1 left out")
+		case 32:
+			verifReach("n=3 row 2 left out")
+		}
+	}
+}
+
+// ------------------------------------------------------------------ RandSubAlign
+
+// H_C10_randsubalign_invariant: RandSubAlign draws a contiguous window (consecutive) or distinct columns (otherwise), the same for all rows.
+// bounds: rows n<=2, columns L<=4, residues any printable ASCII byte, length any 64-bit integer, both modes; every outcome of the draws
+// outside: n>2, L>4
+func H_C10_randsubalign_invariant() {
+	n := nondetRange(1, 2)
+	L := nondetRange(1, 4)
+	consecutive := nondetRange(0, 1) == 1
+	al, orig := vfSymAlign(AMINOACIDS, n, L, vfC10Res)
+	length := nondetInt()
+	sub, err := al.RandSubAlign(length, consecutive)
+	verifReach("called")
+	if length < 0 || length > L {
+		verifReach("impossible length")
+		verifAssert(err != nil, "a window longer than the alignment (or of negative length) cannot be drawn")
+		return
+	}
+	if length == 0 {
+		verifAssert(err != nil || sub.Length() <= 0, "length 0: an error or an empty result")
+		return
+	}
+	verifAssert(err == nil, "1<=length<=L is accepted")
+	out := vfSnapshot(sub)
+	vfC10Observe(out)
+	verifAssert(len(out.names) == n, "all rows are kept")
+	verifAssert(sub.Length() == length, "result has the requested length")
 	for i := 0; i < n; i++ {
-		verifAssert(vfC10SameRow(after.seqs[i], orig[i]), "the input alignment is not modified")
+		verifAssert(out.names[i] == vfNames[i], "names and their order are fixed")
+		verifAssert(len(out.seqs[i]) == length, "row has the requested length")
+	}
+	if consecutive {
+		verifReach("window")
+		found := false
+		for s := 0; s+length <= L; s++ {
+			match := true
+			for i := 0; i < n; i++ {
+				for p := 0; p < length; p++ {
+					match = match && out.seqs[i][p] == orig[i][s+p]
+				}
+			}
+			found = found || match
+		}
+		verifAssert(found, "result is one contiguous window of the original, the same for all rows")
+	} else {
+		verifReach("columns")
+		// distinct columns <=> the output columns are a sub-multiset of the original columns
+		for p := 0; p < length; p++ {
+			cout, corig := 0, 0
+			for q := 0; q < length; q++ {
+				eq := true
+				for i := 0; i < n; i++ {
+					eq = eq && out.seqs[i][q] == out.seqs[i][p]
+				}
+				if eq {
+					cout++
+				}
+			}
+			for c := 0; c < L; c++ {
+				eq := true
+				for i := 0; i < n; i++ {
+					eq = eq && orig[i][c] == out.seqs[i][p]
+				}
+				if eq {
+					corig++
+				}
+			}
+			verifAssert(corig >= 1, "every result column is an original column taken for all rows")
+			verifAssert(cout <= corig, "no original column is drawn more often than it occurs (columns are distinct)")
+		}
+	}
+}
+
+// H_C10_randsubalign_support: every window offset 0..L-len, THE LAST ONE INCLUDED, can be drawn; without 'consecutive' every column can be drawn.
+// bounds: n=1, L<=4, every length 1..L, concrete distinct columns; reachability over all outcomes of the draws
+// outside: L>4; probabilities other than non-zero
+func H_C10_randsubalign_support() {
+	L := nondetRange(1, 4)
+	length := nondetRange(1, L)
+	al := vfC10Concrete(1, L)
+	if nondetRange(0, 1) == 1 {
+		sub, err := al.RandSubAlign(length, true)
+		verifAssert(err == nil, "valid length accepted")
+		r, _ := sub.GetSequenceCharById(0)
+		off := int(r[0] - 'A')
+		verifAssert(off >= 0 && off+length <= L, "window inside the alignment")
+		switch L*100 + length*10 + off {
+		case 110:
+			verifReach("L=1 len=1 offset 0")
+		case 210:
+			verifReach("L=2 len=1 offset 0")
+		case 211:
+			verifReach("L=2 len=1 offset 1 (last)")
+		case 220:
+			verifReach("L=2 len=2 offset 0")
+		case 310:
+			verifReach("L=3 len=1 offset 0")
+		case 311:
+			verifReach("L=3 len=1 offset 1")
+		case 312:
+			verifReach("L=3 len=1 offset 2 (last)")
+		case 320:
+			verifReach("L=3 len=2 offset 0")
+		case 321:
+			verifReach("L=3 len=2 offset 1 (last)")
+		case 330:
+			verifReach("L=3 len=3 offset 0")
+		case 410:
+			verifReach("L=4 len=1 offset 0")
+		case 411:
+			verifReach("L=4 len=1 offset 1")
+		case 412:
+			verifReach("L=4 len=1 offset 2")
+		case 413:
+			verifReach("L=4 len=1 offset 3 (last)")
+		case 420:
+			verifReach("L=4 len=2 offset 0")
+		case 421:
+			verifReach("L=4 len=2 offset 1")
+		case 422:
+			verifReach("L=4 len=2 offset 2 (last)")
+		case 430:
+			verifReach("L=4 len=3 offset 0")
+		case 431:
+			verifReach("L=4 len=3 offset 1 (last)")
+		case 440:
+			verifReach("L=4 len=4 offset 0")
+		}
+	} else {
+		sub, err := al.RandSubAlign(length, false)
+		verifAssert(err == nil, "valid length accepted")
+		r, _ := sub.GetSequenceCharById(0)
+		// the column found at the last position of the result
+		c := int(r[length-1] - 'A')
+		switch L*10 + c {
+		case 10:
+			verifReach("L=1 column 0")
+		case 20:
+			verifReach("L=2 column 0")
+		case 21:
+			verifReach("L=2 column 1")
+		case 30:
+			verifReach("L=3 column 0")
+		case 31:
+			verifReach("L=3 column 1")
+		case 32:
+			verifReach("L=3 column 2")
+		case 40:
+			verifReach("L=4 column 0")
+		case 41:
+			verifReach("L=4 column 1")
+		case 42:
+			verifReach("L=4 column 2")
+		case 43:
+			verifReach("L=4 column 3")
+		}
+		if L == 3 && length == 3 && r[0] == 'C' && r[1] == 'B' && r[2] == 'A' {
+			verifReach("L=3 columns in reverse order")
+		}
+	}
+}
+
+// ------------------------------------------------------------------ Mutate
+
+// vfC10IsLetter: the letters of the alphabet: the 4 nucleotides, or the 20 standard amino acids.
+func vfC10IsLetter(alphabet int, c uint8) bool {
+	if alphabet == NUCLEOTIDS {
+		return c == 'A' || c == 'C' || c == 'G' || c == 'T'
+	}
+	switch c {
+	case 'A', 'R', 'N', 'D', 'C', 'Q', 'E', 'G', 'H', 'I', 'L', 'K', 'M', 'F', 'P', 'S', 'T', 'W', 'Y', 'V':
+		return true
+	}
+	return false
+}
+
+func vfC10Mutate(n, L int) (changed bool) {
+	alphabet := AMINOACIDS
+	if nondetRange(0, 1) == 1 {
+		alphabet = NUCLEOTIDS
+	}
+	al, orig := vfSymAlign(alphabet, n, L, vfC10Res)
+	rate := nondetDyadic(8, -1, 9)
+	al.Mutate(rate)
+	after := vfC10Shape(al, n, L)
+	vfC10Observe(after)
+	same := true
+	for i := 0; i < n; i++ {
+		for j := 0; j < L; j++ {
+			o, g := orig[i][j], after.seqs[i][j]
+			verifAssert(o != '-' || g == '-', "a gap is never substituted")
+			verifAssert((o != '.' && o != '*') || g == o, "the special characters . and * are never substituted")
+			verifAssert(g == o || vfC10IsLetter(alphabet, g), "a substituted residue is a letter of the alphabet")
+			same = same && g == o
+		}
+	}
+	verifAssert(rate > 0 || same, "rate<=0 substitutes nothing")
+	return !same
+}
+
+// H_C10_mutate_invariant: Mutate only replaces non-gap residues, and by letters of the alphabet.
+// bounds: rows n<=2, columns L<=2, both alphabets, residues any printable ASCII byte (gaps, '.', '*' included), rate = k/8 for k in -1..9 (rate<=0: nothing, rate>1: 1); every outcome of the draws
+// outside: n>2, L>2 (cells are treated independently), rates that are not multiples of 1/8
+func H_C10_mutate_invariant() {
+	n := nondetRange(1, 2)
+	L := nondetRange(1, 2)
+	if vfC10Mutate(n, L) {
+		verifReach("a residue was substituted")
+	} else {
+		verifReach("nothing substituted")
+	}
+}
+
+// H_C10_mutate_support: every letter of the alphabet (the last one of the table included) can be the substitute, and a residue can survive rate<1.
+// bounds: 1x1 alignment, residue 'A', rate 1 (and 1/2 for survival); reachability over all outcomes of the draws
+// outside: other shapes
+func H_C10_mutate_support() {
+	if nondetRange(0, 1) == 0 {
+		al := NewAlign(NUCLEOTIDS)
+		al.AddSequenceChar("s0", []uint8{'G'}, "")
+		al.Mutate(1)
+		r, _ := al.GetSequenceCharById(0)
+		if r[0] == 'A' {
+			verifReach("nt A")
+		}
+		if r[0] == 'C' {
+			verifReach("nt C")
+		}
+		if r[0] == 'G' {
+			verifReach("nt G")
+		}
+		if r[0] == 'T' {
+			verifReach("nt T (last)")
+		}
+	} else {
+		al := NewAlign(AMINOACIDS)
+		al.AddSequenceChar("s0", []uint8{'X'}, "")
+		al.Mutate(0.5)
+		r, _ := al.GetSequenceCharById(0)
+		if r[0] == 'A' {
+			verifReach("aa A (first)")
+		}
+		if r[0] == 'V' {
+			verifReach("aa V (last)")
+		}
+		if r[0] == 'W' {
+			verifReach("aa W")
+		}
+		if r[0] == 'X' {
+			verifReach("aa kept at rate 1/2")
+		}
+	}
+}
+
+// ------------------------------------------------------------------ AddGaps
+
+func vfC10AddGaps(n, L int) (added bool) {
+	al, orig := vfSymAlign(AMINOACIDS, n, L, vfC10Res)
+	lenprop := nondetDyadic(8, -1, 9)
+	prop := nondetDyadic(8, -1, 9)
+	al.AddGaps(lenprop, prop)
+	after := vfC10Shape(al, n, L)
+	vfC10Observe(after)
+	same := true
+	for i := 0; i < n; i++ {
+		for j := 0; j < L; j++ {
+			o, g := orig[i][j], after.seqs[i][j]
+			verifAssert(g == o || g == '-', "a cell is unchanged or has become a gap")
+			same = same && g == o
+		}
+	}
+	if prop < 0 || prop > 1 || lenprop < 0 || lenprop > 1 {
+		verifAssert(same, "proportions outside [0,1]: nothing is done")
+	}
+	return !same
+}
+
+// H_C10_addgaps_invariant: AddGaps only turns residues into gaps.
+// bounds: rows n<=3, columns L<=3, residues any printable ASCII byte, lenprop and prop = k/8 for k in -1..9 (outside [0,1]: nothing is done); every outcome of the draws
+// outside: n>3, L>3, proportions that are not multiples of 1/8
+func H_C10_addgaps_invariant() {
+	n := nondetRange(1, 3)
+	L := nondetRange(1, 3)
+	if vfC10AddGaps(n, L) {
+		verifReach("a gap was added")
+	} else {
+		verifReach("nothing added")
+	}
+}
+
+// ------------------------------------------------------------------ Recombine
+
+func vfC10Recombine(n, L int) (changed bool) {
+	al, orig := vfSymAlign(AMINOACIDS, n, L, vfC10Res)
+	prop := nondetDyadic(8, -1, 5)
+	lenprop := nondetDyadic(8, -1, 9)
+	swap := nondetBool()
+	err := al.Recombine(prop, lenprop, swap)
+	after := vfC10Shape(al, n, L)
+	vfC10Observe(after)
+	same := true
+	for j := 0; j < L; j++ {
+		for i := 0; i < n; i++ {
+			g := after.seqs[i][j]
+			from := false
+			for k := 0; k < n; k++ {
+				from = from || g == orig[k][j]
+			}
+			verifAssert(from, "every residue comes from some row at the same column")
+			same = same && g == orig[i][j]
+		}
+		if swap {
+			verifAssert(vfC10SameMultiset(vfC10Column(orig, j), vfC10Column(after.seqs, j)), "with swap the two portions are exchanged: column multisets are kept")
+		}
+	}
+	if prop < 0 || prop > 0.5 || lenprop < 0 || lenprop > 1 {
+		verifAssert(err != nil, "proportion outside its range is an error")
+		verifAssert(same, "nothing is recombined after an error")
+		return false
+	}
+	verifAssert(err == nil, "proportions inside their ranges are accepted")
+	return !same
+}
+
+// H_C10_recombine_invariant: Recombine only copies residues between rows at the same column (and exchanges them with swap=true).
+// bounds: rows n<=3 (one donor/acceptor pair), columns L<=3, residues any printable ASCII byte, prop = k/8 for k in -1..5 (domain [0,1/2]), lenprop = k/8 for k in -1..9, both values of swap; every outcome of the draws
+// outside: n>3 (two pairs need n=4: thorough twin), L>3
+func H_C10_recombine_invariant() {
+	n := nondetRange(1, 3)
+	L := nondetRange(1, 3)
+	if vfC10Recombine(n, L) {
+		verifReach("a portion was copied")
+	} else {
+		verifReach("nothing copied")
+	}
+}
+
+// H_C10_recombine_invariant_deep: as H_C10_recombine_invariant with n=4 (two donor/acceptor pairs) and L=4.
+// bounds: (n,L) in {(4,2),(3,4)}, otherwise as H_C10_recombine_invariant
+// outside: n>4, L>4
+//verif: tier=thorough
+func H_C10_recombine_invariant_deep() {
+	if nondetRange(0, 1) == 0 {
+		vfC10Recombine(4, 2)
+	} else {
+		vfC10Recombine(3, 4)
+	}
+	verifReach("recombined")
+}
+
+// ------------------------------------------------------------------ Rarefy
+
+func vfC10Rarefy(n, L, maxcount int) (rows int) {
+	al, orig := vfSymAlign(AMINOACIDS, n, L, vfC10Res)
+	counts := make(map[string]int)
+	cnt := make([]int, n)
+	total := 0
+	for i := 0; i < n; i++ {
+		cnt[i] = nondetRange(0, maxcount)
+		if cnt[i] > 0 {
+			counts[vfNames[i]] = cnt[i]
+		}
+		total += cnt[i]
+	}
+	assume(total >= 1)
+	nb := nondetRange(1, total)
+	sub, err := al.Rarefy(nb, counts)
+	if nb >= total {
+		verifAssert(err != nil, "nb must be smaller than the sum of the counts")
+		return -1
+	}
+	verifAssert(err == nil, "nb below the sum of the counts is accepted")
+	out := vfSnapshot(sub)
+	vfC10Observe(out)
+	verifAssert(sub.Length() == L, "alignment length kept")
+	seen := make([]bool, n)
+	sum := 0
+	for i := range out.names {
+		k := vfC10NameIndex(out.names[i], n)
+		verifAssert(k >= 0, "a kept row carries an original name")
+		verifAssert(!seen[k], "no row is kept twice")
+		seen[k] = true
+		verifAssert(vfC10SameRow(out.seqs[i], orig[k]), "a kept row is the original row of that name")
+		verifAssert(cnt[k] > 0, "a row without count (count 0) is never kept")
+		sum += cnt[k]
+	}
+	verifAssert(len(out.names) >= 1 && len(out.names) <= nb, "between 1 and nb distinct rows are kept")
+	verifAssert(sum >= nb, "nb draws without replacement need counts summing to nb at least")
+	return len(out.names)
+}
+
+// H_C10_rarefy_invariant: Rarefy keeps rows of the original (distinct rows with a positive count, enough of them for nb draws without replacement); the result does not depend on the iteration order of the counts map.
+// bounds: rows n<=3, columns L=1, residues any printable ASCII byte, counts 0..2 per row (0 = no entry in the map), nb in 1..sum (nb=sum must be an error); every outcome of the draws; every iteration order of the counts map
+// outside: n>3, counts>2, nb<=0, counts<=0 present in the map, unknown names in the map
+//verif: maporder=1
+func H_C10_rarefy_invariant() {
+	n := nondetRange(1, 3)
+	rows := vfC10Rarefy(n, 1, 2)
+	verifReach("called")
+	if rows < 0 {
+		verifReach("nb = sum of counts rejected")
+	}
+	if rows == 1 {
+		verifReach("one row kept")
+	}
+	if rows == 2 {
+		verifReach("two rows kept")
+	}
+}
+
+// H_C10_rarefy_support: every row with a positive count (the last one included) can be the one kept by Rarefy(1).
+// bounds: n=3, L=1, counts 1,2,1, nb=1; reachability over all outcomes of the draw
+// outside: other counts
+//verif: maporder=1
+func H_C10_rarefy_support() {
+	al := vfC10Concrete(3, 1)
+	sub, err := al.Rarefy(1, map[string]int{"s0": 1, "s1": 2, "s2": 1})
+	verifAssert(err == nil && sub.NbSequences() == 1, "one row kept")
+	name, _ := sub.GetSequenceNameById(0)
+	if name == "s0" {
+		verifReach("row 0 kept")
+	}
+	if name == "s1" {
+		verifReach("row 1 kept")
+	}
+	if name == "s2" {
+		verifReach("row 2 kept (last)")
 	}
 }
